@@ -159,7 +159,6 @@ fn ptr(p: read::Pointer) -> String {
 fn dump<'a, S>(
     section: &S,
     data: &'a [u8],
-    oracle_layout: bool,
 ) -> String
 where
     S: UnwindSection<EndianSlice<'a, RunTimeEndian>>,
@@ -307,9 +306,8 @@ where
         if !insns_ok {
             return format!("padding-mismatch entry at {}", off);
         }
-        // the known DWARF64 padding class (known_findings.txt) is only judged by the dedicated stream
-        let known_class = fmt64 && asz > 4;
-        if asz != 0 && total % (asz as usize) != 0 && (oracle_layout || !known_class) {
+        let _ = fmt64;
+        if asz != 0 && total % (asz as usize) != 0 {
             return format!("layout-mismatch entry at {} size {} address_size {}", off, total, asz);
         }
     }
@@ -341,6 +339,33 @@ fn padding_ok<'a>(
     nops < asz.max(1) as usize
 }
 
+/// Watchdog writer: an EndianVec that refuses to grow beyond `cap` bytes, so that a runaway loop in the
+/// code under test ends with an error instead of exhausting memory.
+struct CapVec {
+    v: EndianVec<RunTimeEndian>,
+    cap: usize,
+    runaway: bool,
+}
+impl Writer for CapVec {
+    type Endian = RunTimeEndian;
+    fn endian(&self) -> RunTimeEndian {
+        self.v.endian()
+    }
+    fn len(&self) -> usize {
+        self.v.len()
+    }
+    fn write(&mut self, bytes: &[u8]) -> gimli::write::Result<()> {
+        if self.v.len() + bytes.len() > self.cap {
+            self.runaway = true;
+            return Err(gimli::write::Error::LengthOutOfBounds);
+        }
+        self.v.write(bytes)
+    }
+    fn write_at(&mut self, offset: usize, bytes: &[u8]) -> gimli::write::Result<()> {
+        self.v.write_at(offset, bytes)
+    }
+}
+
 pub fn run(t: &[&str]) -> String {
     let stream = t[0];
     let mut c = Cur { t, i: 1 };
@@ -349,6 +374,27 @@ pub fn run(t: &[&str]) -> String {
     let pre = c.u() as usize;
     let vendor = if c.u() == 1 { Vendor::AArch64 } else { Vendor::Default };
     let b = build(&mut c);
+    if stream == "c14.f_asz" {
+        // address sizes the writer cannot honour: must be an error, neither a panic nor a runaway loop
+        let cap = 1 << 20;
+        let w = CapVec { v: EndianVec::new(e), cap, runaway: false };
+        let (res, runaway, n) = if eh {
+            let mut s = gimli::write::EhFrame::from(w);
+            let r = b.table.write_eh_frame(&mut s);
+            (r, s.0.runaway, s.0.v.len())
+        } else {
+            let mut s = gimli::write::DebugFrame::from(w);
+            let r = b.table.write_debug_frame(&mut s);
+            (r, s.0.runaway, s.0.v.len())
+        };
+        if runaway {
+            return format!("runaway-mismatch more than {} bytes written", cap);
+        }
+        return match res {
+            Ok(()) => format!("ok {}", n),
+            Err(e) => err(&e),
+        };
+    }
     let mut w = EndianVec::new(e);
     for _ in 0..pre {
         w.write_u8(0xa5).unwrap();
@@ -365,7 +411,7 @@ pub fn run(t: &[&str]) -> String {
     if let Err(e) = res {
         return err(&e);
     }
-    let sharp = !(stream == "c14.rows" || stream == "c14.ehra" || stream.starts_with("c14.f_"));
+    let sharp = !matches!(stream, "c14.rows" | "c14.ehra" | "c14.pad64" | "c14.lsda");
     if sharp {
         let canon = if b.canon.is_empty() {
             "-".to_string()
@@ -376,16 +422,15 @@ pub fn run(t: &[&str]) -> String {
     }
     // oracle: read back with gimli's own reader
     let data = &bytes[..];
-    let oracle_layout = stream == "c14.f_pad64";
     if eh {
         let mut s = read::EhFrame::new(data, e);
         s.set_address_size(b.first_asz);
         s.set_vendor(vendor);
-        dump(&s, data, oracle_layout)
+        dump(&s, data)
     } else {
         let mut s = read::DebugFrame::new(data, e);
         s.set_address_size(b.first_asz);
         s.set_vendor(vendor);
-        dump(&s, data, oracle_layout)
+        dump(&s, data)
     }
 }
